@@ -25,6 +25,9 @@ def content(coding, n, off, seed):
         return blk_ref.position_code(off % 251 + n, seed)[off % 251:]
     if coding == 'ws':
         return (b' \n\t\r' * (n // 4 + 1))[:n]
+    if coding.startswith('cyc'):          # every byte value, starting at the value given: 'cyc128' = 80 81 82 ...
+        start = int(coding[3:])
+        return bytes((start + i) % 256 for i in range(n))
     return (b'\x00' if coding == 'zero' else b'\x40') * n
 
 
@@ -138,6 +141,12 @@ def specs(tier, seed):
                 else ['pos']
             for coding in codings:
                 add(kind='vbs', lens=lens, blocked=blocked, coding=coding)
+    # every record length 1..300 (the low length byte takes every value) with content that runs through every
+    # byte value from a start that moves with the length
+    for n in range(1, 301):
+        add(kind='vbs', lens=[n], blocked=bool(n % 2), coding='cyc%d' % ((n * 37) % 256))
+        if n % 16 == 0:
+            add(kind='vbs', lens=[n, 300 - n + 1], blocked=not bool(n % 2), coding='cyc%d' % ((n * 11) % 256))
     add(kind='vbs', lens=[1008, 1012], blocked=True, coding='pos', terminator=False)
     add(kind='vbs', lens=[5, 6], blocked=False, coding='pos', terminator=False)
     for enc in ('latin_1', 'cp500'):
@@ -164,7 +173,8 @@ def describe(tier, seed):
     return {
         'rule': '%d files (VBS, 1014-blocked VBS, IPM in latin_1/cp500; record lengths from a block-boundary alphabet: '
                 'singles, all pairs over %d lengths, triples, a 12-record 8+-block file; contents position-coded, '
-                'all-0x00, all-0x40; two files without terminator) x EVERY truncation offset 0..len(file). Expected '
+                'all-0x00, all-0x40, whitespace; every single record length 1..300 with content running through every '
+                'byte value; two files without terminator) x EVERY truncation offset 0..len(file). Expected '
                 'records = those whose prefix+data lie wholly inside the surviving payload (reference parser); the '
                 'reader must deliver exactly those and then stop or raise MciIpmDataError. A case = (file, offset); '
                 'non-trivial when the cut removes at least one byte.' % (len(sp), len(PAIR_AL)),
